@@ -18,23 +18,25 @@ theorem cert_srgb_g :
     finiteB C.srgb_inverse_eotf_f4 = true ∧ ratOf C.srgb_inverse_eotf_f4 = 1 ∧ C.srgb_inverse_eotf_f4 < 4294967296 := by
   decide +kernel
 
-/-- real-arithmetic core of the power branch -/
-theorem srgb_g_real (α a X p r : ℝ) (hα1 : 10550106 / 10 ^ 7 ≤ α) (hα2 : α ≤ 10550108 / 10 ^ 7)
-    (hp : |p - X ^ ((5:ℝ) / 12)| ≤ 1832 / 10 ^ 7 + (7914 / 10 ^ 9) * (5 / 12) + 4 / 10 ^ 6)
+/-- real-arithmetic core of the power branch, for a power step of accuracy `ε` -/
+theorem srgb_g_real (α a X p r ε : ℝ) (hα1 : 10550106 / 10 ^ 7 ≤ α) (hα2 : α ≤ 10550108 / 10 ^ 7)
+    (hp : |p - X ^ ((5:ℝ) / 12)| ≤ ε)
     (hr : |r - (α * p - a)| ≤ 2 / 10 ^ 7) (hc : |α * X ^ ((5:ℝ) / 12) - a - specGamma X| ≤ 12 / 10 ^ 6) :
-    |r - specGamma X| < 25 / 10 ^ 5 := by
+    |r - specGamma X| ≤ (10550108 / 10 ^ 7) * ε + 122 / 10 ^ 7 := by
+  have hε : 0 ≤ ε := le_trans (abs_nonneg _) hp
   have e : r - specGamma X = (r - (α * p - a)) + α * (p - X ^ ((5:ℝ) / 12)) + (α * X ^ ((5:ℝ) / 12) - a - specGamma X) := by ring
   rw [e]
-  refine lt_of_le_of_lt (abs_add_three _ _ _) ?_
+  refine le_trans (abs_add_three _ _ _) ?_
   rw [abs_mul, abs_of_pos (by linarith : (0:ℝ) < α)]
-  have : α * |p - X ^ ((5:ℝ) / 12)| ≤ (10550108 / 10 ^ 7) * (1832 / 10 ^ 7 + (7914 / 10 ^ 9) * (5 / 12) + 4 / 10 ^ 6) :=
-    mul_le_mul hα2 hp (abs_nonneg _) (by norm_num)
+  have : α * |p - X ^ ((5:ℝ) / 12)| ≤ (10550108 / 10 ^ 7) * ε := mul_le_mul hα2 hp (abs_nonneg _) (by norm_num)
   linarith
 
-variable (B : Build) (hB : B.fastmath = true)
-include hB
+section oracle
+variable (B : Build) (c0 c1 : ℝ) (ho : PowOracle B c0 c1)
+include ho
 
-theorem srgb_to_gamma : CurveWithinF (srgb_inverse_eotf B) specGamma := by
+theorem srgb_to_gamma_o (hsmall : c0 + c1 * (5 / 12) ≤ 1 / 1000) :
+    CurveWithinB (srgb_inverse_eotf B) specGamma ((10550108 / 10 ^ 7) * (c0 + c1 * (5 / 12)) + 122 / 10 ^ 7) := by
   obtain ⟨z1, z2, b1, b2, b3, b4, b5, a1, a2, a3, a4, k1, k2, y1, y2, o1, o2, o3⟩ := cert_srgb_g
   have hu' : u = 1 / 16777216 := u_val
   have he' : eta ≤ 1 / 10 ^ 40 := eta_le
@@ -57,6 +59,8 @@ theorem srgb_to_gamma : CurveWithinF (srgb_inverse_eotf B) specGamma := by
   dsimp only
   set x' := F32.max x C.srgb_inverse_eotf_f0 with hx'
   set X := toReal x with hX
+  obtain ⟨fk', vk'⟩ := near_of' _ _ _ y1 y2
+  have hk' : |toReal (div C.srgb_inverse_eotf_f2 C.srgb_inverse_eotf_f3) - 5 / 12| ≤ 1 / 10 ^ 6 := by push_cast at vk'; norm_num at vk' ⊢; exact vk'
   by_cases hlt : lt x' BSRGB = true
   · rw [if_pos hlt]
     have hXlt : X < toReal BSRGB := by have := (lt_iff x' BSRGB hxf fb).mp hlt; rw [hxv] at this; exact this
@@ -72,12 +76,15 @@ theorem srgb_to_gamma : CurveWithinF (srgb_inverse_eotf B) specGamma := by
     rw [if_pos (by norm_num; linarith)]
     have e : toReal (mul x' C.srgb_inverse_eotf_f1) - 12.92 * X = (toReal (mul x' C.srgb_inverse_eotf_f1) - X * toReal C.srgb_inverse_eotf_f1) + X * (toReal C.srgb_inverse_eotf_f1 - 12.92) := by ring
     rw [e]
-    refine lt_of_le_of_lt (abs_add_le _ _) ?_
+    refine le_trans (abs_add_le _ _) ?_
     rw [abs_mul, abs_of_nonneg h0]
     have h3 : X * |toReal C.srgb_inverse_eotf_f1 - 12.92| ≤ (1 / 100) * (1 / 10 ^ 6) := by
       apply mul_le_mul (by linarith) _ (abs_nonneg _) (by norm_num)
       norm_num at vk ⊢; exact vk
     rw [hu'] at hre
+    have hεpos : 0 ≤ c0 + c1 * (5 / 12) := by
+      obtain ⟨_, _, _, _, hq⟩ := ho 0 _ (5 / 12) (by unfold WF; norm_num) c_zero.1 (by rw [c_zero.2]) (by rw [c_zero.2]; norm_num) fk' (by norm_num) (by norm_num) hk'
+      exact le_trans (abs_nonneg _) hq
     nlinarith
   · rw [if_neg hlt]
     have hXge : toReal BSRGB ≤ X := by
@@ -86,12 +93,10 @@ theorem srgb_to_gamma : CurveWithinF (srgb_inverse_eotf B) specGamma := by
     -- the power
     obtain ⟨fy, vy⟩ := near_of' _ _ _ y1 y2
     push_cast at vy
-    have hp : powf B x' (div C.srgb_inverse_eotf_f2 C.srgb_inverse_eotf_f3) = powfFast B.fma x' (div C.srgb_inverse_eotf_f2 C.srgb_inverse_eotf_f3) := by
-      unfold powf; rw [if_pos hB]
-    obtain ⟨p, hp1, hp2, hp3⟩ := PowCurve.pow_unit B.fma x' _ (5 / 12) hxw' hxf (by rw [hxv]; exact h0) (by rw [hxv]; exact h1) fy
-      (by norm_num) (by norm_num) (by norm_num at vy ⊢; exact vy)
+    obtain ⟨p, hp1, _, hp2, hp3⟩ := ho x' _ (5 / 12) hxw' hxf (by rw [hxv]; exact h0) (by rw [hxv]; linarith) fy
+      (by norm_num) (by norm_num) hk'
     rw [hxv] at hp3
-    rw [hp, hp1]
+    rw [hp1]
     simp only [Out.bind]
     -- a = α - 1
     obtain ⟨fo, vo⟩ := val_of _ _ o1 o2
@@ -125,14 +130,27 @@ theorem srgb_to_gamma : CurveWithinF (srgb_inverse_eotf B) specGamma := by
       have e : (((5:ℕ):ℝ) / ((12:ℕ):ℝ)) = (5:ℝ) / 12 := by norm_num
       rw [e] at hP; exact hP
     have hc := gamma_consts (toReal ASRGB) av (toReal BSRGB) X hα1 hα2 ha7 hβ1 hβ2 hP'.1 hP'.2 hXge h1
-    apply srgb_g_real (toReal ASRGB) av X (toReal p) _ hα1 hα2 hp3 _ hc
+    apply srgb_g_real (toReal ASRGB) av X (toReal p) _ _ hα1 hα2 hp3 _ hc
     have e : toReal ASRGB * toReal p + -av = toReal ASRGB * toReal p - av := by ring
     rw [e] at hfe
     refine le_trans hfe ?_
     rw [hu']; nlinarith [eta_pos]
 
+end oracle
+
+section fast
+variable (B : Build) (hB : B.fastmath = true)
+include hB
+
+theorem srgb_to_gamma : CurveWithinF (srgb_inverse_eotf B) specGamma := by
+  intro x hxw hx h0 h1
+  obtain ⟨r, h2, h3, h4⟩ := srgb_to_gamma_o B _ _ (fast_oracle B hB) (by norm_num) x hxw hx h0 h1
+  exact ⟨r, h2, h3, lt_of_le_of_lt h4 (by norm_num)⟩
+
 /-- **C03, sRGB linear -> gamma through the dispatch** -/
 theorem srgb_to_gamma_curve : ∃ g, toGammaFn B .SRGB = .ok g ∧ CurveWithinF g specGamma :=
   ⟨_, rfl, srgb_to_gamma B hB⟩
+
+end fast
 
 end C03
